@@ -164,9 +164,12 @@ func newWorld() *world {
 // newLeaf creates a stateful leaf with link count one.
 func (w *world) newLeaf(kind leafKind) *leafRec {
 	inner := &fakeLeaf{kind: kind}
+	// (Outside w.mu: initialising the FUSE link count is a scheduling
+	// point when the atomics of fuse_handle_allocator.go are shimmed.)
+	outer := w.handles.New().AsLinkableLeaf(inner)
 	w.mu.Lock()
 	defer w.mu.Unlock()
-	rec := &leafRec{id: len(w.leaves), inner: inner, outer: w.handles.New().AsLinkableLeaf(inner)}
+	rec := &leafRec{id: len(w.leaves), inner: inner, outer: outer}
 	w.leaves = append(w.leaves, rec)
 	w.byOuter[rec.outer] = rec
 	return rec
